@@ -24,7 +24,7 @@ import time
 HERE = os.path.dirname(os.path.abspath(__file__))
 VERIF = os.path.dirname(HERE)
 sys.path.insert(0, HERE)
-from extract import process_template, ExtractError, GenLine  # noqa: E402
+from extract import process_template, ExtractError, GenLine, find_simple_method  # noqa: E402
 from rustlex import LexError  # noqa: E402
 
 OBL_CLASSES = [
@@ -34,6 +34,11 @@ OBL_CLASSES = [
     ("invariant not satisfied before loop", "invariant-established"),
     ("loop invariant not satisfied", "invariant-preserved"),
     ("loop ensures not satisfied", "loop-postcondition"),
+    ("unable to prove post-condition of closure", "postcondition"),
+    ("unable to prove pre-condition of closure", "precondition"),
+    ("decreases not satisfied at continue", "termination"),
+    ("bitvector assertion not satisfied", "assertion"),
+    ("explicit panic", "panic-freedom"),
     ("postcondition not satisfied", "postcondition"),
     ("assertion failed", "assertion"),
     ("assertion failure", "assertion"),
@@ -315,6 +320,31 @@ def main():
             all_tool.append({"kind": "timeout", "message": "verus timed out on %s" % unit})
             continue
         fails, tools = triage(unit, gen, vr, ucfg)
+        # R20: an unknown helper method that is a pure single-expression `fn name(&self)` in one of the unit's source files
+        # (typically introduced by a refactoring) is inlined at its call sites and the unit is rebuilt
+        unknown = set()
+        for x in tools:
+            for mm in re.finditer(r"no method named `(\w+)` found", x.get("message", "") + x.get("rendered", "")):
+                unknown.add(mm.group(1))
+        inline_map = {}
+        for nm in sorted(unknown):
+            for fpath in sorted(set(f["file"] for f in gen.functions)):
+                try:
+                    e = find_simple_method(open(os.path.join(args.repo, fpath)).read(), nm)
+                except Exception:  # noqa: BLE001
+                    e = None
+                if e:
+                    inline_map[nm] = e
+                    break
+        if inline_map:
+            try:
+                gen, path = build_unit(unit, cfg, args.repo, outdir, {"inline": inline_map})
+                text = gen.text()
+                vr = run_verus(path, logdir, extra)
+                cmds.append(" ".join(vr["cmd"]))
+                fails, tools = triage(unit, gen, vr, ucfg)
+            except (ExtractError, LexError) as e:
+                tools.append({"kind": "extract", "message": "R20 inline of %s: %s" % (sorted(inline_map), e)})
         if any(x["kind"] == "rlimit" for x in tools):
             # a resource limit hides whether an obligation fails: retry once with a large limit for a definite answer
             vr2 = run_verus(path, None, extra + ["--rlimit", "300"], timeout=1500)
